@@ -246,9 +246,11 @@ func c13LoopInline(r *Run, fn *ssa.Function, at ssa.CallInstruction) {
 	if c := r.OneCall(fn, pfx+":marshal", "json.Marshal"); c != nil {
 		r.ExpectArg(c, pfx+":marshal.req", 0, "p3")
 	}
-	um := r.OneCall(fn, pfx+":unmarshal", "json.Unmarshal")
-	if um != nil {
-		c13DecodeArgs(r, um, pfx)
+	// the decode step(s): the JSON decoder itself or module helpers built on it (a body may be decoded
+	// on several exclusive paths, e.g. into a scratch value when there is something to fill in)
+	ums := c13DecodeSteps(fn)
+	if r.Check(pfx+":unmarshal", len(ums) >= 1, r.FnPos(fn), fmt.Sprintf("%d calls in %s decode the body (json.Unmarshal or a helper built on it)", len(ums), FuncName(fn))) {
+		c13DecodeFills(r, fn, ums, pfx, 4)
 	}
 	r.Rule("C13.R1")
 
@@ -261,7 +263,7 @@ func c13LoopInline(r *Run, fn *ssa.Function, at ssa.CallInstruction) {
 	}
 	r.Check("retry:set-calls", len(sets) >= 2, r.FnPos(fn), fmt.Sprintf("%d calls of backoff.set in the loop (error edge and 429/503 expected)", len(sets)))
 	r.Check("retry:wait-calls", len(waits) >= 1, r.FnPos(fn), fmt.Sprintf("%d calls of waitForBackoff in the loop", len(waits)))
-	if len(sets) < 2 || len(waits) < 1 || um == nil {
+	if len(sets) < 2 || len(waits) < 1 || len(ums) == 0 {
 		return
 	}
 
@@ -349,10 +351,33 @@ func c13LoopInline(r *Run, fn *ssa.Function, at ssa.CallInstruction) {
 		}
 		return ""
 	}
-	umKey := "nil?" + r.D.D(um.Value())
-	if _, tested := r.D.AtomsOf(fn)[umKey]; !tested {
-		r.Fail("retry:status=200,unparsable", r.Where(um), "undecided: the loop does not test the error of "+CalleeOf(um))
-		return
+	var umKeys []string
+	for _, um := range ums {
+		ev, _ := c13StepErr(r, um)
+		k := ""
+		if ev != nil {
+			k = "nil?" + r.D.D(ev)
+		}
+		if _, tested := r.D.AtomsOf(fn)[k]; !tested {
+			r.Fail("retry:status=200,unparsable", r.Where(um), "undecided: the loop does not test the error of "+CalleeOf(um))
+			return
+		}
+		umKeys = append(umKeys, k)
+	}
+	withAll := func(a Sigma, v string) Sigma {
+		s := with(a, "", "")
+		for _, k := range umKeys {
+			s[k] = v
+		}
+		return s
+	}
+	hasUm := func(reach *Reach) bool {
+		for _, um := range ums {
+			if reach.Has(um) {
+				return true
+			}
+		}
+		return false
 	}
 	judge := func(code string, o c13Outcome) (bool, string) {
 		switch code {
@@ -363,8 +388,9 @@ func c13LoopInline(r *Run, fn *ssa.Function, at ssa.CallInstruction) {
 			return c13OnlyKinds(o, "wait-error") && len(o.sets) > 0 && setsNil(o) == "" && len(o.waits) > 0 && o.loops,
 				"200 with a body that does not parse ⇒ retried like a failed attempt: backoff.set(nil), wait, next attempt; only exit is the wait's error"
 		case "408":
-			return c13OnlyKinds(o, "wait-error") && len(o.sets) == 0 && len(o.waits) > 0 && o.loops,
-				"408 ⇒ next attempt, back-off state untouched (no set call), only exit is the wait's error"
+			noDelay, how := c13NoWaitSets(r, o.sets)
+			return c13OnlyKinds(o, "wait-error") && noDelay && len(o.waits) > 0 && o.loops,
+				"408 ⇒ next attempt without added delay (no set call, or only backoff.set(&d) with a constant d ≤ 0, which never adds delay: set[…override…] / set:no-wait-override-adds-no-delay), only exit is the wait's error" + how
 		case "429", "503":
 			return c13OnlyKinds(o, "wait-error") && len(o.sets) > 0 && len(o.waits) > 0 && o.loops,
 				code + " ⇒ backoff.set, wait, next attempt; only exit is the wait's error"
@@ -377,7 +403,7 @@ func c13LoopInline(r *Run, fn *ssa.Function, at ssa.CallInstruction) {
 		o, reach := eval(s)
 		ok, want := judge(class, o)
 		r.Check("retry:status="+label, ok, r.Where(at), want+"; found "+o.String())
-		if !is200 && reach.Has(um) {
+		if !is200 && hasUm(reach) {
 			parsedElsewhere = append(parsedElsewhere, label)
 		}
 		return o
@@ -390,10 +416,13 @@ func c13LoopInline(r *Run, fn *ssa.Function, at ssa.CallInstruction) {
 			continue
 		}
 		if code == 200 {
-			one("200", "200", with(c.Sigma, umKey, "nil"), true)
-			one("200,unparsable", "200,unparsable", with(c.Sigma, umKey, "non"), true)
-			if reach := r.D.Walk(fn, c.Sigma, D, stopH); !reach.Has(um) {
-				r.Fail("retry:status=200", r.Where(um), "the body of a 200 response is not decoded")
+			one("200", "200", withAll(c.Sigma, "nil"), true)
+			for _, k := range umKeys {
+				// this decode fails (the others, where they run at all, succeed)
+				one("200,unparsable", "200,unparsable", with(withAll(c.Sigma, "nil"), k, "non"), true)
+			}
+			if reach := r.D.Walk(fn, c.Sigma, D, stopH); !hasUm(reach) {
+				r.Fail("retry:status=200", r.Where(ums[0]), "the body of a 200 response is not decoded")
 			}
 			continue
 		}
@@ -423,7 +452,7 @@ func c13LoopInline(r *Run, fn *ssa.Function, at ssa.CallInstruction) {
 		}
 	}
 	r.Rule("C13.R5")
-	r.Check(pfx+":parse-only-200", len(parsedElsewhere) == 0, r.Where(um), fmt.Sprintf("the body is decoded for status 200 only; also decoded for %v", parsedElsewhere))
+	r.Check(pfx+":parse-only-200", len(parsedElsewhere) == 0, r.Where(ums[0]), fmt.Sprintf("the body is decoded for status 200 only; also decoded for %v", parsedElsewhere))
 	succ := successReturns(fn)
 	r.Check(pfx+":success-returns", len(succ) >= 1, r.FnPos(fn), fmt.Sprintf("%d nil-error returns", len(succ)))
 
